@@ -7,6 +7,7 @@ package main
 // debounce timer would; a background poller keeps requesting while reloads run.
 
 import (
+	"context"
 	"encoding/json"
 	"fmt"
 	"io"
@@ -99,6 +100,25 @@ func drRunCase(cs drCase) (mis []map[string]interface{}, steps int) {
 		}
 		m.mu.Unlock()
 	}()
+	// every fifth behaviour runs with a browser attached: a live-reload event stream held open for the whole
+	// case (the model gives client connections no influence on a reload)
+	if cs.ID%5 == 0 {
+		hctx, hcancel := context.WithCancel(context.Background())
+		defer hcancel()
+		go func() {
+			for hctx.Err() == nil {
+				req, _ := http.NewRequestWithContext(hctx, "GET", fmt.Sprintf("http://127.0.0.1:%d/__livereload", port), nil)
+				resp, err := (&http.Client{}).Do(req)
+				if err != nil {
+					time.Sleep(20 * time.Millisecond)
+					continue
+				}
+				io.Copy(io.Discard, resp.Body) // until the server goes away; then reconnect like EventSource does
+				resp.Body.Close()
+			}
+		}()
+		time.Sleep(50 * time.Millisecond)
+	}
 	// background poller
 	var omu sync.Mutex
 	var obs []drObs
